@@ -3,19 +3,21 @@
 T1  spec/EffectConflicts.tla: the implementation-shaped layer (eff, assigned, incdec, sim, updated in
     the order in which check_conflicting_effects / check_conflicting_simulated_effects test, update
     and raise) against the declarative layer ConflictSpec (a collection conflicts iff some pair does),
-    for every history of calls within the bounds.  Three configurations per bound:
+    for every history of calls within the bounds.  Configurations:
       as-written (Repaired = FALSE), all invariants   -> TLC finds the exception-safety defect
       as-written, order-independence invariants only  -> runs to completion
-      repaired (Repaired = TRUE), all invariants      -> runs to completion (with -coverage)
+      repaired (Repaired = TRUE), all invariants      -> runs to completion
+    (one run per bound with -coverage 1: every outcome of the check is a named action and must be taken).
     Which configuration speaks for the code is decided by TLC too: the trace judge checks the recorded
     histories for conformance with the Impl layer under Repaired = FALSE, then (only if that fails)
     under Repaired = TRUE.
-T2  TLC (EffectConflictsEnum) emits the table of calls and every history of length L over it, per
-    container; each history is replayed on a fresh InstantaneousAction / DurativeAction / Problem through
-    the public API only.  After every call: returned / UPConflictingEffectsException / other exception,
-    the stored effects and simulated effect per time point (public getters), and the probe: every
-    candidate call tried on a copy (clone() for the actions; for Problem a fresh problem with the
-    same history replayed, because Problem.clone drops _fluents_inc_dec -- that is C22's finding).
+T2  TLC (EffectConflictsEnum) emits the table of calls and, per group, every history of length L over
+    the group's sub-universe, per container; each history is replayed on a fresh InstantaneousAction /
+    DurativeAction / Problem through the public API only.  After every call: returned /
+    UPConflictingEffectsException / other exception, the stored effects and simulated effect per time
+    point (public getters), and the probe: every candidate call tried on a copy (clone() for the
+    actions; for Problem a fresh problem with the same history replayed, because Problem.clone drops
+    _fluents_inc_dec -- that is C22's finding).
 T3  EffectConflictsTrace judges every recorded history (the enumerated ones and seeded random longer
     ones over two time points) step by step against both layers.
 
